@@ -415,7 +415,7 @@ object_t* load_object (const char *mudlib_filename, const char *pre_text) {
   program_t *prog;
   object_t *ob, *save_command_giver = command_giver;
   svalue_t *mret;
-  int pushed;
+  int pushed, parse_errors;
   struct stat c_st;
   char real_name[PATH_MAX], name[PATH_MAX - 2];
 
@@ -489,7 +489,10 @@ object_t* load_object (const char *mudlib_filename, const char *pre_text) {
       opt_trace (TT_COMPILE|2, "legal_path passed: \"%s\"", real_name);
     }
 
-  /* Get the program by loading from binary or compiling from the source */
+  /* Get the program by loading from binary or compiling from the source.  Only a compilation
+   * counts parse errors: a binary can be loaded while another file is being compiled (the
+   * master's log_error() may need an object), and that compilation's count is not ours. */
+  parse_errors = 0;
   if (!(prog = load_binary (real_name)) && !inherit_file)
     {
       opt_trace (TT_COMPILE|2, "no binary found, compiling: \"%s\"", real_name);
@@ -508,6 +511,8 @@ object_t* load_object (const char *mudlib_filename, const char *pre_text) {
       /* compile LPC program from the source, optionally using pre_text */
       prog = compile_file (f, real_name, pre_text);
 
+      parse_errors = num_parse_error;
+
       update_compile_av (total_lines);
       total_lines = 0;
       if (f != -1)
@@ -515,11 +520,11 @@ object_t* load_object (const char *mudlib_filename, const char *pre_text) {
     }
 
   /* Sorry, can't handle objects without programs yet. */
-  if (inherit_file == 0 && (num_parse_error > 0 || prog == 0))
+  if (inherit_file == 0 && (parse_errors > 0 || prog == 0))
     {
       if (prog)
         free_prog (prog, 1);
-      if (num_parse_error == 0 && prog == 0)
+      if (parse_errors == 0 && prog == 0)
         error ("*No program in object '/%s'!", name);
       error ("*Error in loading object '/%s':", name);
     }
